@@ -108,3 +108,15 @@ func VerifSizesOf(c *Conn) VerifSizes {
 		LocalEpoch:       common.LocalEpoch(),
 	}
 }
+
+// VerifTrafficSecrets returns the DTLS 1.3 traffic secrets an endpoint retains.
+func VerifTrafficSecrets(c *Conn) (write, read map[uint16][]byte) {
+	c.lock.RLock()
+	defer c.lock.RUnlock()
+	s13, ok := c.state.(*dtlsstate.State13)
+	if !ok {
+		return map[uint16][]byte{}, map[uint16][]byte{}
+	}
+
+	return s13.TrafficKeys.VerifSecrets()
+}
